@@ -341,10 +341,12 @@ def step (_ : St) (op : List String) (impl : Option (List String)) : St × Strin
     | some n, some probs =>
       let verdict :=
         match im.raised, im.segs with
-        | some _, _ => "FAIL:multinomial_raised"
+        -- a non-empty request is refused exactly when the probabilities have no positive sum
+        | some e, _ => verdictOf [(multinomialRaises probs n && e == "exc:bpp", "multinomial_raises_only_without_positive_sum")]
         | none, [st] =>
           match st.mapM nat? with
-          | some st => verdictOf [(st.length == n, "multinomial_counts_sum"), (countsOk probs.length n st, "multinomial_counts_sum"),
+          | some st => verdictOf [(!(multinomialRaises probs n), "multinomial_refuses_nonpositive_sum"),
+              (st.length == n, "multinomial_counts_sum"), (countsOk probs.length n st, "multinomial_counts_sum"),
               (st.all (fun s => s < probs.length), "multinomial_state_range"),
               -- the law: each state lies on the step of the running sums on which its own recorded draw falls
               (match unitDraws im.draws with
@@ -353,6 +355,7 @@ def step (_ : St) (op : List String) (impl : Option (List String)) : St × Strin
           | none => "FAIL:parse"
         | none, _ => "FAIL:parse"
       let out :=
+        if multinomialRaises probs n then errStr .bpp else
         match unitDraws im.draws with
         | some ds => if ds.length != n then "draw-mismatch" else
           match randMultinomial probs n ds with
